@@ -412,6 +412,9 @@ def rule_unique_and_map(ctx, r):
 def run(ctx):
     r1 = ctx.rule("R1", "targets inherit the workflow's working directory (direct, template, map); default = directory of the defining file's real path", min_instances=5)
     rule_fallback(ctx, r1)
+    # ... and the job runs there: every cluster script changes into the target's own working directory before the spec (the schedulers start jobs elsewhere)
+    from .shared import import_rules
+    import_rules(ctx, r1, "C10", only={"R1"}, select=lambda c: "::cd" in c)
     r2 = ctx.rule("R2", "nothing but the workflow-file search (and init) reads the invoking directory; state paths derive from the workflow file's directory", min_instances=10)
     rule_cwd_taint(ctx, r2)
     rule_norm_path(ctx, r2)
